@@ -57,6 +57,21 @@ theorem parseLine_noBs (l : Bytes) (h : ∀ c ∈ l, c ≠ bBslash) : parseLine 
     simp only
     rw [fast_path_sound (c :: cs) h']
 
+theorem filterMap_congr' {α β : Type} (f g : α → Option β) (l : List α) (h : ∀ x ∈ l, f x = g x) :
+    l.filterMap f = l.filterMap g := by
+  induction l with
+  | nil => rfl
+  | cons x xs ih =>
+    simp only [List.filterMap_cons, h x (by simp)]
+    rw [ih (fun y hy => h y (by simp [hy]))]
+
+theorem splitLinesGo_nil (cur : Bytes) : splitLinesGo [] cur = if cur.isEmpty then [] else [cur.reverse] := by
+  unfold splitLinesGo; rfl
+
+theorem splitLinesGo_cons (c : UInt8) (cs cur : Bytes) :
+    splitLinesGo (c :: cs) cur = if c = bNL then cur.reverse :: splitLinesGo cs [] else splitLinesGo cs (c :: cur) := by
+  conv => lhs; unfold splitLinesGo
+
 /-- the rows of a text, read line by line on the general path (the fast path reads the same). -/
 theorem rowsOf_eq (s : Bytes) : rowsOf s = (splitLines s).filterMap rowOfLine := by
   unfold rowsOf
@@ -65,7 +80,7 @@ theorem rowsOf_eq (s : Bytes) : rowsOf s = (splitLines s).filterMap rowOfLine :=
   cases hb : s.contains bBslash with
   | true => rfl
   | false =>
-    apply List.filterMap_congr
+    apply filterMap_congr'
     intro l hl
     have hnb : ∀ c ∈ l, c ≠ bBslash := by
       intro c hc e
@@ -86,19 +101,16 @@ theorem filterMap_splitLinesGo_append (g : Bytes → Option Row) (hg : g [] = no
       (splitLinesGo a cur).filterMap g ++ (splitLinesGo b []).filterMap g := by
   induction a generalizing cur with
   | nil =>
-    simp only [List.nil_append]
-    conv => lhs; unfold splitLinesGo
+    rw [List.nil_append, splitLinesGo_cons, splitLinesGo_nil]
     simp only [if_true]
-    conv => rhs; unfold splitLinesGo
     by_cases hc : cur.isEmpty = true
     · have : cur = [] := List.isEmpty_iff.mp hc
       subst this
       simp [hg]
-    · simp [hc]
+    · simp only [hc, Bool.false_eq_true, if_false, List.filterMap_cons, List.filterMap_nil]
+      cases g cur.reverse <;> simp
   | cons x xs ih =>
-    simp only [List.cons_append]
-    conv => lhs; unfold splitLinesGo
-    conv => rhs; unfold splitLinesGo
+    rw [List.cons_append, splitLinesGo_cons, splitLinesGo_cons]
     by_cases hx : x = bNL
     · simp only [hx, if_true, List.filterMap_cons]
       rw [ih []]
